@@ -188,7 +188,7 @@ def ops_panel(w, p):
     return table, guard
 
 
-REDEF = {'none': {}, 'mu': {'mu': 'mu2'}, 'a': {'a': 'a2'}, 'Nxx': {'Nxx': 'Nxx2'}, 'lam': {'lam': 'F2'}, 'offset': {'offset': 'd2'},
+REDEF = {'Nxx0': {'Nxx': 0., 'Nxy': 0.}, 'offset0': {'offset': 0.}, 'none': {}, 'mu': {'mu': 'mu2'}, 'a': {'a': 'a2'}, 'Nxx': {'Nxx': 'Nxx2'}, 'lam': {'lam': 'F2'}, 'offset': {'offset': 'd2'},
          'flag': {'w1rx': 'w1rx2'}, 'b': {'b': 'b2'}, 'r': {'r': 'r2'}, 'Nxy': {'Nxy': 'Nxy2', 'Nyy': 'Nyy2'}, 'order': {'n': 2}, 'alpha': {'alphadeg': 'alpha2'}}
 
 
@@ -394,9 +394,9 @@ def configs(tier, seed):
             firsts = mops if not quick else [o for o in mops if (zlib.crc32(('%s;%s;%d' % (o, last, seed)).encode()) % 3 == 0) or o in ('calc_k0', last)]
             for first in firsts:
                 out.append({'model': model, 'm': mm, 'n': 1, 'first': first, 'redef': 'none', 'last': last, 'group': 'pair:%s' % model})
-            for redef in ('mu', 'a', 'Nxx', 'lam', 'offset', 'flag', 'b', 'Nxy', 'order') + (('r',) if model == 'cpanel' else ()):
+            for redef in ('mu', 'a', 'Nxx', 'lam', 'offset', 'flag', 'b', 'Nxy', 'order', 'Nxx0', 'offset0') + (('r',) if model == 'cpanel' else ()):
                 fs = [last, 'calc_k0'] if quick else [last, 'calc_k0', 'freq', 'lb', 'calc_kM']
-                if quick and redef in ('b', 'Nxy', 'order', 'r'):
+                if quick and redef in ('b', 'Nxy', 'order', 'r', 'Nxx0', 'offset0'):
                     fs = ['calc_k0']
                 for first in sorted(set(fs) & set(mops)):
                     out.append({'model': model, 'm': mm, 'n': 1, 'first': first, 'redef': redef, 'last': last, 'group': 'redefinition-%s:%s' % (redef, model)})
